@@ -1046,9 +1046,31 @@ impl<'a> CompactionIterator<'a> {
 
 		// Check if latest version is DELETE at bottom level
 		// If so, we can completely remove this key from the database
+		//
+		// Not while a registered snapshot that cannot see the delete still reads an
+		// older version: that version stays (see `required_by_snapshot` below), and
+		// then the tombstone has to stay with it or the old value would become the
+		// latest again. Snapshots in the delete's own visibility boundary read the
+		// delete, so for them dropping everything changes nothing.
+		let any_required_by_snapshot = match self.accumulated_versions.first() {
+			Some((latest, _)) => {
+				let latest_visibility = self.find_earliest_visible_snapshot(latest.seq_num())?;
+				let mut required = false;
+				for (key, _) in &self.accumulated_versions {
+					let visibility = self.find_earliest_visible_snapshot(key.seq_num())?;
+					if self.must_preserve_for_snapshot(visibility) && visibility != latest_visibility {
+						required = true;
+						break;
+					}
+				}
+				required
+			}
+			None => false,
+		};
 		let latest_is_delete_at_bottom = self.is_bottom_level
 			&& !self.accumulated_versions.is_empty()
-			&& self.accumulated_versions[0].0.is_hard_delete_marker();
+			&& self.accumulated_versions[0].0.is_hard_delete_marker()
+			&& !any_required_by_snapshot;
 
 		// Check if any version is REPLACE
 		// REPLACE semantics: delete all older versions regardless of retention
@@ -1126,8 +1148,10 @@ impl<'a> CompactionIterator<'a> {
 				// Latest PUT: never stale (will be output)
 				false
 			} else if is_latest && is_hard_delete && self.is_bottom_level {
-				// Latest DELETE at bottom: stale (won't be output)
-				true
+				// Latest DELETE at bottom with nothing older required is handled by
+				// `latest_is_delete_at_bottom`; here an older version is kept for a
+				// snapshot, so the tombstone is kept to keep hiding it.
+				false
 			} else if is_latest && is_hard_delete && !self.is_bottom_level {
 				// Latest DELETE at non-bottom: not stale (tombstone preserved)
 				false
